@@ -122,7 +122,7 @@ class C09(Prop):
                    "VMF/CMF start from non-redundant bonds (canonicalised twice)"]
 
     def budget(self, tier):
-        return dict(examples=240, shards=16) if tier == "quick" else dict(examples=8000, shards=16)
+        return dict(examples=480, shards=16) if tier == "quick" else dict(examples=8000, shards=16)
 
     def strategy(self, tier):
         return cases(tier)
@@ -228,6 +228,12 @@ class C09(Prop):
             tol = 3e-4 * max(1.0, t) * len(dts) * nrm
         if s["kind"] in ("tdvp_vmf", "tdvp_mu_vmf"):
             tol = 1e-4 * max(1.0, t) * len(dts) * nrm
+        if s["kind"] in ("tdvp_ps", "tdvp_ps2") and len(mps) > 2:
+            # the projector-splitting schemes are second-order integrators: even when the bond dimensions hold the state,
+            # the left/right bases of an interior site are complete only on the smaller side, so a step carries a
+            # splitting error O((||H||dt)^3) (measured constant <= 0.05; exact for two sites, where both bases are complete)
+            r.classes.append("ps.order_bound")
+            tol = tol + 0.5 * sum(d ** 3 for d in dts) * nrm
         r.check_close(f"exact.{s['kind']}", got, ref, tol, f"{s} split {dts} normalize={case['normalize']} vs expm")
         r.check("exact.sector", chain.sector_leak(spec, got if not use_dm else np.diag(got @ got.conj().T) * 0 + 0, q) <= 1e-8 if not use_dm else True,
                 "left the sector")
